@@ -232,6 +232,35 @@ func TestC12Pairs(t *testing.T) {
 			check("infix-pair-regrouped", lang.Binary{Op: o2, L: lang.Binary{Op: o1, L: a, R: b}, R: c}, "(a "+o1+" b) "+o2+" c")
 		}
 	}
+	// the grouping is also what is computed: chains of arithmetic operators over
+	// floats (and integers at the end of their range), where (x op y) op z and
+	// x op (y op z) differ in the last digit
+	fvars := map[string]lang.Value{"p": lang.Float(0.1), "q": lang.Float(0.2), "r": lang.Float(0.3), "big": lang.Float(1e16), "one": lang.Int(1), "top": lang.Int(math.MaxInt64), "half": lang.Float(0.5)}
+	for _, o1 := range []string{"+", "-", "*", "/"} {
+		for _, o2 := range []string{"+", "-", "*", "/"} {
+			for _, names := range [][3]string{{"p", "q", "r"}, {"r", "q", "p"}, {"big", "one", "one"}, {"top", "one", "half"}, {"p", "r", "big"}} {
+				x, y, z := lang.Name{N: names[0]}, lang.Name{N: names[1]}, lang.Name{N: names[2]}
+				var tree lang.Expr
+				if opLevel[o1] >= opLevel[o2] {
+					tree = lang.Binary{Op: o2, L: lang.Binary{Op: o1, L: x, R: y}, R: z}
+				} else {
+					tree = lang.Binary{Op: o1, L: x, R: lang.Binary{Op: o2, L: y, R: z}}
+				}
+				m := lang.NewMachine()
+				for k, v := range fvars {
+					m.Globals[k] = v
+				}
+				exp := expectFromModel(m, &lang.Program{Stmts: []lang.Stmt{lang.Return{X: tree}}})
+				for _, noOpt := range []bool{false, true} {
+					mc := &Case{Prop: "C12", Kind: "meaning", Script: "return " + names[0] + " " + o1 + " " + names[1] + " " + o2 + " " + names[2] + ";", Vars: fvars, Exp: exp, HostVals: map[string]lang.Value{}, NoOpt: noOpt}
+					if err := runMeaning(mc); err != nil {
+						violation(t, "C12", mc, "%v", err)
+					}
+				}
+				col.Class("float-chain-computed")
+			}
+		}
+	}
 	for _, p := range c12PreOps {
 		for _, o := range c12BinOps {
 			check("prefix-infix", lang.Binary{Op: o, L: lang.Unary{Op: p, X: a}, R: b}, p+"a "+o+" b")
